@@ -1,2 +1,48 @@
--- stub: replaced by the slice's driver
-def main : IO Unit := IO.println "stub"
+import TriompheModel.Model.Overflow
+/-!
+`drv_ovf` — the executable overflow model behind a line protocol (Tie B of C16).
+
+One query per input line, one answer line per query:
+
+* `clone <std|nostd> <bits> <start>`      →  `ok <count after>` | `abort <kind> <word after>`
+  (`kind` ∈ processAbort doublePanic unwinding unknown; `bits = 64` goes through the `BitVec 64`
+  model `cloneWord`, other widths through `cloneNat`)
+* `facts`                                 →  the guard facts the model is instantiated at
+* anything else                           →  `bad-query`
+-/
+open Overflow Facts
+
+def factsOf (cfg : String) : Option GuardFacts :=
+  if cfg == "std" then some genStd else if cfg == "nostd" then some genNoStd else none
+
+def answerClone (G : GuardFacts) (bits start : Nat) : String :=
+  if bits == 64 then
+    let w := BitVec.ofNat 64 start
+    match cloneWord G w with
+    | .ok v => s!"ok {v.toNat}"
+    | .error a => s!"abort {a.name} {(wordAfter w).toNat}"
+  else
+    match cloneNat G bits (start % 2 ^ bits) with
+    | .ok v => s!"ok {v}"
+    | .error a => s!"abort {a.name} {fetchAddNat bits (start % 2 ^ bits)}"
+
+def answer (line : String) : String :=
+  match line.trimAscii.toString.splitOn " " with
+  | ["clone", cfg, bits, start] =>
+    match factsOf cfg, bits.toNat?, start.toNat? with
+    | some G, some b, some s => answerClone G b s
+    | _, _, _ => "bad-query"
+  | ["facts"] => s!"std={repr genStd} nostd={repr genNoStd}".replace "\n" " "
+  | _ => "bad-query"
+
+partial def loop (hin hout : IO.FS.Stream) : IO Unit := do
+  let line ← hin.getLine
+  if line.isEmpty then return
+  hout.putStrLn (answer line)
+  loop hin hout
+
+def main : IO Unit := do
+  let hin ← IO.getStdin
+  let hout ← IO.getStdout
+  loop hin hout
+  hout.flush
